@@ -59,77 +59,126 @@ macro_rules! wstubs {
     };
 }
 
-// ------------------------------------------------------------------ C16b
-wstubs! {
-#[kani::unwind(12)]
-fn c16w_uint() {
+// ------------------------------------------------------------------ C16b / C09b numeric encoders
+/// size field of width W (0 = default 1-byte form) holding `size`
+fn check_size_field<const W: usize>(buf: &[u8], at: usize, size: usize) {
+    let sl = if W == 0 { 1 } else { W };
+    let want = ref_vint_fixed(size as u64, sl);
+    let mut i = 0;
+    while i < 8 {
+        if i < sl {
+            assert!(buf[at + i] == want[8 - sl + i], "C09b: size field == payload length in exactly the requested width");
+        }
+        i += 1;
+    }
+}
+
+/// CLASS selects the value range (1,2,4,8 = minimal payload width) so that each SAT
+/// problem stays small; the four classes together cover all 2^64 values.
+fn uint_writer<const W: usize, const CLASS: usize>() {
     let v: u64 = kani::any();
+    kani::assume(ref_uint_width(v) == CLASS);
     let mut w = TagWriter::new(Sink::new(SINK));
-    let r = w.verif_write_unsigned_int_tag::<0>(flat::U, &v);
+    let r = w.verif_write_unsigned_int_tag::<W>(flat::U, &v);
     assert!(r.is_ok(), "C16b: every u64 is writable");
-    let width = ref_uint_width(v);
-    kani::cover!(width == 8, "8-byte unsigned reached");
-    kani::cover!(v == 0, "zero reached");
+    let width = CLASS;
+    let sl = if W == 0 { 1 } else { W };
+    kani::cover!(v == 0 || CLASS > 1, "reached");
     let buf = w.verif_buf();
-    assert!(buf.len() == 2 + width, "C16b: unsigned payload uses the minimal 1/2/4/8-byte width");
-    assert!(buf[0] == flat::U as u8 && buf[1] == 0x80 | width as u8, "C16b: id then 1-byte size field");
+    assert!(buf.len() == 1 + sl + width, "C16b: unsigned payload uses the minimal 1/2/4/8-byte width");
+    assert!(buf[0] == flat::U as u8, "C16b: id first");
+    check_size_field::<W>(buf, 1, width);
     let be = v.to_be_bytes();
     let mut i = 0;
     while i < 8 {
         if i < width {
-            assert!(buf[2 + i] == be[8 - width + i], "C16b: unsigned payload is big-endian");
+            assert!(buf[1 + sl + i] == be[8 - width + i], "C16b: unsigned payload is big-endian");
         }
         i += 1;
     }
-    assert!(matches!(tools::arr_to_u64(&buf[2..]), Ok(d) if d == v), "C16b: decoder inverts the unsigned encoder");
+    assert!(matches!(tools::arr_to_u64(&buf[1 + sl..]), Ok(d) if d == v), "C16b: decoder inverts the unsigned encoder");
     core::mem::forget(r);
     core::mem::forget(w);
 }
-}
 
-wstubs! {
-#[kani::unwind(12)]
-fn c16w_int() {
+fn int_writer<const W: usize, const CLASS: usize>() {
     let v: i64 = kani::any();
+    kani::assume(ref_int_width(v) == CLASS);
     let mut w = TagWriter::new(Sink::new(SINK));
-    let r = w.verif_write_signed_int_tag::<0>(flat::I, &v);
+    let r = w.verif_write_signed_int_tag::<W>(flat::I, &v);
     assert!(r.is_ok(), "C16b: every i64 is writable");
-    let width = ref_int_width(v);
-    kani::cover!(width == 8 && v < 0, "8-byte negative reached");
-    kani::cover!(width == 1 && v < 0, "1-byte negative reached");
+    let width = CLASS;
+    let sl = if W == 0 { 1 } else { W };
+    kani::cover!(v < 0, "negative value reached");
+    kani::cover!(v >= 0, "non-negative value reached");
     let buf = w.verif_buf();
-    assert!(buf.len() == 2 + width, "C16b: signed payload uses the minimal 1/2/4/8-byte two's-complement width");
-    assert!(buf[0] == flat::I as u8 && buf[1] == 0x80 | width as u8, "C16b: id then 1-byte size field");
+    assert!(buf.len() == 1 + sl + width, "C16b: signed payload uses the minimal 1/2/4/8-byte two's-complement width");
+    assert!(buf[0] == flat::I as u8, "C16b: id first");
+    check_size_field::<W>(buf, 1, width);
     let be = v.to_be_bytes();
     let mut i = 0;
     while i < 8 {
         if i < width {
-            assert!(buf[2 + i] == be[8 - width + i], "C16b: signed payload is big-endian two's complement");
+            assert!(buf[1 + sl + i] == be[8 - width + i], "C16b: signed payload is big-endian two's complement");
         }
         i += 1;
     }
-    assert!(matches!(tools::arr_to_i64(&buf[2..]), Ok(d) if d == v), "C16b: decoder inverts the signed encoder");
+    assert!(matches!(tools::arr_to_i64(&buf[1 + sl..]), Ok(d) if d == v), "C16b: decoder inverts the signed encoder");
     core::mem::forget(r);
     core::mem::forget(w);
 }
+
+macro_rules! num_h {
+    ($name:ident, $f:ident, $W:literal, $C:literal) => {
+        wstubs! {
+        #[kani::unwind(12)]
+        fn $name() { $f::<$W, $C>() }
+        }
+    };
 }
+num_h!(c16w_uint_w0_c1, uint_writer, 0, 1);
+num_h!(c16w_uint_w0_c2, uint_writer, 0, 2);
+num_h!(c16w_uint_w0_c4, uint_writer, 0, 4);
+num_h!(c16w_uint_w0_c8, uint_writer, 0, 8);
+num_h!(c16w_int_w0_c1, int_writer, 0, 1);
+num_h!(c16w_int_w0_c2, int_writer, 0, 2);
+num_h!(c16w_int_w0_c4, int_writer, 0, 4);
+num_h!(c16w_int_w0_c8, int_writer, 0, 8);
+num_h!(c09_uint_w2_c1, uint_writer, 2, 1);
+num_h!(c09_uint_w2_c2, uint_writer, 2, 2);
+num_h!(c09_uint_w2_c4, uint_writer, 2, 4);
+num_h!(c09_uint_w2_c8, uint_writer, 2, 8);
+num_h!(c09_int_w2_c1, int_writer, 2, 1);
+num_h!(c09_int_w2_c2, int_writer, 2, 2);
+num_h!(c09_int_w2_c4, int_writer, 2, 4);
+num_h!(c09_int_w2_c8, int_writer, 2, 8);
+num_h!(c09_uint_w8_c4, uint_writer, 8, 4);
+num_h!(c09_int_w8_c4, int_writer, 8, 4);
 
 wstubs! {
 #[kani::unwind(12)]
-fn c16w_float() {
+fn c16w_float() { float_writer::<0>() }
+}
+wstubs! {
+#[kani::unwind(12)]
+fn c09_float_w3() { float_writer::<3>() }
+}
+
+fn float_writer<const W: usize>() {
     let bits: u64 = kani::any();
     let v = f64::from_bits(bits);
     let mut w = TagWriter::new(Sink::new(SINK));
-    let r = w.verif_write_float_tag::<0>(flat::F, &v);
+    let r = w.verif_write_float_tag::<W>(flat::F, &v);
     assert!(r.is_ok(), "C16b: every f64 is writable");
+    let sl = if W == 0 { 1 } else { W };
     let buf = w.verif_buf();
-    assert!(buf.len() == 10 && buf[0] == flat::F as u8 && buf[1] == 0x88, "C16b: float is written as 8 bytes");
-    assert!(ref_be_u64(&buf[2..], 8) == bits, "C16b: float payload is the IEEE-754 bit pattern, big-endian");
-    assert!(matches!(tools::arr_to_f64(&buf[2..]), Ok(d) if d.to_bits() == bits), "C16b: decoder inverts the float encoder bit for bit");
+    assert!(buf.len() == 1 + sl + 8 && buf[0] == flat::F as u8, "C16b: float is written as 8 bytes");
+    check_size_field::<W>(buf, 1, 8);
+    assert!(ref_be_u64(&buf[1 + sl..], 8) == bits, "C16b: float payload is the IEEE-754 bit pattern, big-endian");
+    assert!(matches!(tools::arr_to_f64(&buf[1 + sl..]), Ok(d) if d.to_bits() == bits), "C16b: decoder inverts the float encoder bit for bit");
     kani::cover!(v.is_nan(), "NaN reached");
     core::mem::forget(r);
     core::mem::forget(w);
-}
 }
 
 // ------------------------------------------------------------------ C09: id emission
@@ -447,4 +496,233 @@ fn c19_full_invalid_child() {
     core::mem::forget(r);
     core::mem::forget(w);
 }
+}
+
+// ------------------------------------------------------------------ C09b: binary / utf8 with explicit width
+fn bytes_writer<const W: usize, const UTF8: bool>() {
+    let n: usize = kani::any();
+    kani::assume(n <= 3);
+    let mut payload: [u8; 3] = kani::any();
+    if UTF8 {
+        // ASCII is valid UTF-8; the writer copies bytes and never looks at them
+        payload[0] &= 0x7F;
+        payload[1] &= 0x7F;
+        payload[2] &= 0x7F;
+    }
+    let pre: [u8; 2] = kani::any();
+    let mut w = TagWriter::new(Sink::new(SINK));
+    w.verif_seed(vec![(flat::M, EBMLSize::Known(0), 0)], pre.to_vec());
+    let r = if UTF8 {
+        w.verif_write_utf8_tag::<W>(flat::S, core::str::from_utf8(&payload[..n]).unwrap())
+    } else {
+        w.verif_write_binary_tag::<W>(flat::B2, &payload[..n])
+    };
+    assert!(r.is_ok(), "C09b: small payload is writable in every width");
+    let sl = if W == 0 { 1 } else { W };
+    let idl = if UTF8 { 1 } else { 2 };
+    let buf = w.verif_buf();
+    kani::cover!(n == 0, "empty payload reached");
+    kani::cover!(n == 3, "3-byte payload reached");
+    assert!(buf.len() == 2 + idl + sl + n, "C09b: element appended after the buffered bytes: id, size field of the requested width, payload");
+    assert!(buf[0] == pre[0] && buf[1] == pre[1], "C10: earlier buffered bytes are untouched");
+    if UTF8 {
+        assert!(buf[2] == flat::S as u8, "C09b: id emitted unchanged");
+    } else {
+        assert!(buf[2] == 0x40 && buf[3] == 0x87, "C09b: 2-byte id emitted unchanged");
+    }
+    check_size_field::<W>(buf, 2 + idl, n);
+    let mut i = 0;
+    while i < 3 {
+        if i < n {
+            assert!(buf[2 + idl + sl + i] == payload[i], "C09b: payload bytes emitted unchanged and in order");
+        }
+        i += 1;
+    }
+    assert!(w.get_ref().len == 0, "C10: nothing is handed over while a known-size master is open");
+    core::mem::forget(r);
+    core::mem::forget(w);
+}
+macro_rules! bytes_h {
+    ($name:ident, $W:literal, $U:literal) => {
+        wstubs! {
+        #[kani::unwind(12)]
+        fn $name() { bytes_writer::<$W, $U>() }
+        }
+    };
+}
+bytes_h!(c09_binary_w0, 0, false);
+bytes_h!(c09_binary_w1, 1, false);
+bytes_h!(c09_binary_w4, 4, false);
+bytes_h!(c09_binary_w8, 8, false);
+bytes_h!(c09_utf8_w0, 0, true);
+bytes_h!(c09_utf8_w2, 2, true);
+
+wstubs! {
+#[kani::unwind(132)]
+fn c19_utf8_width1_overflow() {
+    let n: usize = kani::any();
+    kani::assume(n >= 126 && n <= 129);
+    let payload = [b'a'; 129];
+    let pre: [u8; 2] = kani::any();
+    let mut w = TagWriter::new(Sink::new(SINK));
+    w.verif_seed(vec![(tree::ROOT, EBMLSize::Known(0), 0)], pre.to_vec());
+    let before = snap(&w);
+    let r = w.verif_write_utf8_tag::<1>(flat::S, core::str::from_utf8(&payload[..n]).unwrap());
+    kani::cover!(n == 127, "reserved value 127 reached");
+    if n >= 127 {
+        assert!(r.is_err(), "C19: a size that width 1 cannot represent is rejected");
+    }
+    if r.is_err() {
+        let after = snap(&w);
+        assert!(same(&before, &after), "C19: rejected explicit-width utf8 write leaves buffer, open masters and destination untouched");
+    } else {
+        assert!(n == 126, "C09b: width 1 holds sizes up to 126");
+    }
+    core::mem::forget(r);
+    core::mem::forget(w);
+}
+}
+
+// ------------------------------------------------------------------ C09b: width dispatch of the public API
+wstubs! {
+#[kani::unwind(12)]
+fn c09_width_dispatch() {
+    let wd: usize = kani::any();
+    kani::assume(wd >= 1 && wd <= 8);
+    let mut w = TagWriter::new(Sink::new(SINK));
+    w.verif_seed(vec![(flat::M, EBMLSize::Known(0), 0)], Vec::new());
+    let tag = FlatTag::new(flat::B, Val::B(&[]));
+    let r = w.write_advanced(&tag, WriteOptions::set_size_byte_count(wd));
+    assert!(r.is_ok(), "C09b: empty binary element is writable with every size width");
+    let buf = w.verif_buf();
+    assert!(buf.len() == 1 + wd, "C09b: the requested size width is honoured exactly by the public API");
+    assert!(buf[0] == flat::B as u8, "C09b: id emitted unchanged");
+    let want = ref_vint_fixed(0, wd);
+    let mut i = 0;
+    while i < 8 {
+        if i < wd {
+            assert!(buf[1 + i] == want[8 - wd + i], "C09b: size field of the requested width encodes 0");
+        }
+        i += 1;
+    }
+    kani::cover!(wd == 8, "width 8 reached");
+    kani::cover!(wd == 1, "width 1 reached");
+    core::mem::forget(r);
+    core::mem::forget(w);
+}
+}
+
+// ------------------------------------------------------------------ C09c: deprecated unknown-size call == option-based call
+wstubs! {
+#[kani::unwind(12)]
+#[allow(deprecated)]
+fn c09_unknown_size_equivalence() {
+    let pre: [u8; 2] = kani::any();
+    let outer_known: bool = kani::any();
+    let outer = if outer_known { EBMLSize::Known(0) } else { EBMLSize::Unknown };
+    let mut a = TagWriter::new(Sink::new(SINK));
+    let mut b = TagWriter::new(Sink::new(SINK));
+    a.verif_seed(vec![(tree::ROOT, outer, 0)], pre.to_vec());
+    b.verif_seed(vec![(tree::ROOT, outer, 0)], pre.to_vec());
+    let tag = TreeTag::start(tree::A);
+    let ra = a.write_unknown_size(&tag);
+    let rb = b.write_advanced(&tag, WriteOptions::is_unknown_sized_element());
+    assert!(ra.is_ok() == rb.is_ok(), "C09c: deprecated and option-based unknown-size calls agree on success");
+    let (sa, sb) = (snap(&a), snap(&b));
+    assert!(same(&sa, &sb), "C09c: deprecated and option-based unknown-size calls leave identical writer state");
+    if ra.is_ok() {
+        let buf = a.verif_buf();
+        assert!(buf.len() == 2 + 1 + 8, "C09c: unknown-size start = id + 8-byte size field");
+        assert!(buf[2] == tree::A as u8 && buf[3] == 0x01 && buf[4] == 0xFF && buf[10] == 0xFF, "C09c: size field is the 8-byte all-ones pattern");
+        assert!(a.verif_open().len() == 2 && a.verif_open()[1].0 == tree::A && a.verif_open()[1].1 == EBMLSize::Unknown, "C09c: the master is open with unknown size");
+    }
+    kani::cover!(ra.is_ok(), "accepted reached");
+    core::mem::forget(ra);
+    core::mem::forget(rb);
+    core::mem::forget(a);
+    core::mem::forget(b);
+}
+}
+
+// ------------------------------------------------------------------ C09d: short writes of the destination
+fn flush_short_writes<const K: usize>() {
+    let content: [u8; 7] = kani::any();
+    let n: usize = kani::any();
+    kani::assume(n <= 7);
+    let mut w = TagWriter::new(Sink::new(K));
+    w.verif_seed(Vec::new(), content[..n].to_vec());
+    let r = w.verif_private_flush();
+    assert!(r.is_ok(), "C09d: flushing into an accepting destination succeeds");
+    assert!(w.verif_buf().is_empty(), "C09d: the working buffer is emptied");
+    let d = w.get_ref();
+    assert!(d.len == n, "C09d: every buffered byte is delivered exactly once however short the writes are");
+    let mut i = 0;
+    while i < 7 {
+        if i < n {
+            assert!(d.data[i] == content[i], "C09d: delivered bytes equal the buffered bytes in order");
+        }
+        i += 1;
+    }
+    kani::cover!(n == 7, "7 bytes through short writes reached");
+    core::mem::forget(r);
+    core::mem::forget(w);
+}
+wstubs! {
+#[kani::unwind(10)]
+fn c09_flush_short_1() { flush_short_writes::<1>() }
+}
+wstubs! {
+#[kani::unwind(10)]
+fn c09_flush_short_3() { flush_short_writes::<3>() }
+}
+
+// ------------------------------------------------------------------ C10: flush contract of a public write
+/// public write of a global binary leaf (Void, allowed anywhere) with 0..2 masters open
+fn stream_contract(open: Vec<(u64, EBMLSize, usize)>, any_known: bool) {
+    let payload: [u8; 2] = kani::any();
+    let pre: [u8; 3] = kani::any();
+    let leaked: &'static [u8] = Box::leak(Box::new(payload));
+    let mut w = TagWriter::new(Sink::new(SINK));
+    // Inv_w: with no known-size master open the working buffer is empty
+    let buffered = if any_known { pre.to_vec() } else { Vec::new() };
+    let nbuf = buffered.len();
+    w.verif_seed(open, buffered);
+    let tag = TreeTag::new(tree::VOID, Val::B(leaked));
+    let r = w.write(&tag);
+    assert!(r.is_ok(), "C10: a global element is accepted under any open masters");
+    let d = w.get_ref();
+    if any_known {
+        assert!(d.len == 0, "C10: while a known-size master is open none of its content is handed over");
+        let buf = w.verif_buf();
+        assert!(buf.len() == nbuf + 4 && buf[0] == pre[0] && buf[1] == pre[1] && buf[2] == pre[2], "C10: buffered bytes are kept and only extended");
+        assert!(buf[3] == tree::VOID as u8 && buf[4] == 0x82 && buf[5] == payload[0] && buf[6] == payload[1], "C10: the element is appended");
+    } else {
+        assert!(w.verif_buf().is_empty(), "C10: with no known-size master open nothing stays buffered after a successful write");
+        assert!(d.len == 4 && d.data[0] == tree::VOID as u8 && d.data[1] == 0x82 && d.data[2] == payload[0] && d.data[3] == payload[1],
+            "C10: every byte of the accepted element has been handed over");
+        assert!(d.flushes >= 1, "C10: the destination is flushed");
+    }
+    kani::cover!(payload[0] != 0, "non-zero payload reached");
+    core::mem::forget(r);
+    core::mem::forget(w);
+}
+wstubs! {
+#[kani::unwind(12)]
+fn c10_stream_no_master() { stream_contract(Vec::new(), false) }
+}
+wstubs! {
+#[kani::unwind(12)]
+fn c10_stream_unknown_master() { stream_contract(vec![(tree::ROOT, EBMLSize::Unknown, 0)], false) }
+}
+wstubs! {
+#[kani::unwind(12)]
+fn c10_stream_known_master() { stream_contract(vec![(tree::ROOT, EBMLSize::Known(0), 0)], true) }
+}
+wstubs! {
+#[kani::unwind(12)]
+fn c10_stream_unknown_in_known() { stream_contract(vec![(tree::ROOT, EBMLSize::Known(0), 0), (tree::A, EBMLSize::Unknown, 0)], true) }
+}
+wstubs! {
+#[kani::unwind(12)]
+fn c10_stream_known_in_unknown() { stream_contract(vec![(tree::ROOT, EBMLSize::Unknown, 0), (tree::A, EBMLSize::Known(0), 0)], true) }
 }
